@@ -27,7 +27,6 @@ import "encoding/json"
 import "io"
 import "os"
 import "sort"
-import "strconv"
 import "strings"
 /* -------------------------------------------------------------------------- */
 type DenseInt32Vector []int32
@@ -297,11 +296,11 @@ func (v *DenseInt32Vector) Import(filename string) error {
     }
     fields := strings.Fields(l)
     for i := 0; i < len(fields); i++ {
-      value, err := strconv.ParseFloat(fields[i], 64)
+      value, err := parse_int32(fields[i])
       if err != nil {
         return fmt.Errorf("invalid table")
       }
-      *v = append(*v, int32(value))
+      *v = append(*v, value)
     }
   }
   return nil
